@@ -180,7 +180,7 @@ class Gen:
         if k == "or":
             return "(" + " || ".join(self.class_pred(x) for x in re[1:]) + ")"
         if k == "diff":
-            return "(%s && !%s)" % (self.class_pred(re[1]), self.class_pred(re[2]))
+            return "((%s) && !(%s))" % (self.class_pred(re[1]), self.class_pred(re[2]))
         raise ValueError(re)
 
     def fresh(self):
@@ -277,7 +277,7 @@ KINDS = ("skip", "tok", "return", "continue", "reset_continue", "switch", "switc
 def lexer_text(d, lname="L"):
     """the lexer! invocation of a definition"""
     has_fallible = any(r["kind"] in ("ok", "err") for (_, rules) in d["sets"] for r in rules)
-    out = ["lexgen::lexer! {", "    pub(crate) %s(Log) -> u8;" % lname]
+    out = ["lexgen::lexer! {"] + (["    " + d["attrs"]] if d.get("attrs") else []) + ["    pub(crate) %s(Log) -> u8;" % lname]
     if has_fallible:
         out.append("    type Error = u8;")
     for (nm, re) in d.get("lets", []):
@@ -452,7 +452,9 @@ def reference_fn(d, N, m):
 PRELUDE = r'''
 #[allow(unused_imports)]
 use lexgen_util::{Loc, LexerError, LexerErrorKind};
-use super::{ArrIter, N, Log, RefItem, RefOut, any_base, ghost_locs, rest_eq};
+use super::{ArrIter, N, Log, RefItem, RefOut, ghost_locs, rest_eq};
+#[cfg(kani)]
+use super::any_base;
 '''
 
 COMMON = r'''
@@ -557,6 +559,69 @@ pub mod %(name)s {
 
     %(entry_fn)s
 
+    /// one real `next()` call from the call-start state (rule set rs0, base location, done flag, remaining input a[0..n])
+    /// compared with the reference step.  Used symbolically by the Kani harness and concretely by the native replayer.
+    pub fn check(a: [char; N], n: usize, base: Loc, rs0: u8, done0: bool, verbose: bool) {
+        let locs = ghost_locs(&a, base);
+        let r = reference(&a, n, rs0, done0, &locs);
+        #[cfg(kani)]
+        kani::assume(r.within);                       // at most %(m)d lexemes handled in this call (bound m)
+        let mut lx = L::new_from_iter_with_state(ArrIter { a, n, i: 0 }, Log::default());
+        lx.0.__verif_set_locs(base);
+        %(enter)s
+        lx.0.__done = done0;
+        let item = lx.next();
+        #[cfg(not(kani))]
+        if verbose {
+            println!("input window      : {:?} (n = {}), rule set index {}, done flag {}, base {:?}", &a[..n], n, rs0, done0, base);
+            println!("real lexer item   : {:?}", item);
+            println!("reference item    : {:?}   (after: rule set {}, position {}, match start {}, done {}, {} action(s) logged)", r.item, r.rs, r.pos, r.ms, r.done, r.log.n);
+            let logged = lx.0.state().n;
+            println!("real lexer after  : __state {} __initial_state {} (entry of reference rule set: {}), match_loc {:?}, done {}, saved match cleared {}, actions logged {}",
+                     lx.0.__state, lx.0.__initial_state, entry(r.rs), lx.0.match_loc(), lx.0.__done, lx.0.__verif_last_match_is_none(), logged);
+            if !r.within { println!("NOTE: this input needs more than %(m)d lexemes in one call; it is outside the bound of the harness"); return; }
+        }
+        // ---- vacuity guards
+        #[cfg(kani)]
+        {
+            kani::cover!(matches!(r.item, RefItem::Tok(..)), "cover: a token is produced");
+            kani::cover!(matches!(r.item, RefItem::Invalid(..)), "cover: InvalidToken is produced");
+            kani::cover!(matches!(r.item, RefItem::None), "cover: stream end is produced");
+            kani::cover!(r.rounds >= 2, "cover: two lexemes handled in one call");
+        }
+        // ---- the item
+        match (&item, r.item) {
+            (None, RefItem::None) => {}
+            (Some(Ok((s, t, e))), RefItem::Tok(rs_, rt, re_)) => {
+                assert!(*t == rt, "[%(t_tok)s] token / selected rule differs from the reference (longest match, rule priority)");
+                assert!(*s == rs_ && *e == re_, "[%(t_span)s] token span differs from the reference");
+            }
+            (Some(Err(er)), RefItem::Invalid(l)) => {
+                assert!(matches!(er.kind, LexerErrorKind::InvalidToken), "[%(t_errkind)s] error kind differs from the reference");
+                assert!(er.location == l, "[%(t_errloc)s] InvalidToken location is not the start of the lexeme");
+            }
+            (Some(Err(er)), RefItem::Custom(l, c)) => {
+                assert!(%(custom_check)s, "[%(t_custom)s] custom error payload differs");
+                assert!(er.location == l, "[%(t_customloc)s] custom error location is not the start of the lexeme");
+            }
+            (None, _) => { assert!(false, "[%(t_none)s] stream ended although the reference yields an item"); }
+            (Some(Ok(_)), RefItem::None) => { assert!(false, "[%(t_extra)s] token produced although the reference ends the stream"); }
+            (Some(Err(_)), RefItem::None) => { assert!(false, "[%(t_extra)s] error produced although the reference ends the stream"); }
+            (Some(Ok(_)), _) => { assert!(false, "[%(t_okerr)s] token produced where the reference reports an error"); }
+            (Some(Err(_)), _) => { assert!(false, "[%(t_errok)s] error produced where the reference yields a token"); }
+        }
+        // ---- the state between two calls
+        assert!(lx.0.__state == entry(r.rs) && lx.0.__initial_state == entry(r.rs), "[%(t_rs)s] active rule set after the call differs from the reference");
+        assert!(rest_eq(&lx.0.__iter, &a, n, r.pos), "[%(t_pos)s] input position after the call differs from the reference");
+        assert!(lx.0.match_loc() == (locs[r.ms], locs[r.pos]), "[%(t_match)s] current match after the call differs from the reference");
+        assert!(lx.0.__done == r.done, "[%(t_done)s] end-of-input flag differs from the reference");
+        assert!(lx.0.__verif_last_match_is_none(), "[%(t_lm)s] a saved accepting position survives the call");
+        // ---- the actions that ran
+        let lg = *lx.0.state();
+        assert!(lg.n == r.log.n, "[%(t_logn)s] number of action invocations differs from the reference");
+        assert!(lg == r.log, "[%(t_log)s] action log (rule, match_loc, peek) differs from the reference");
+    }
+
     #[cfg(kani)]
     #[kani::proof]
     #[kani::unwind(%(unwind)d)]
@@ -564,66 +629,189 @@ pub mod %(name)s {
         let a: [char; N] = kani::any();
         let n: usize = kani::any(); kani::assume(n <= N);
         let base = any_base();
-        let locs = ghost_locs(&a, base);
         let rs0: u8 = kani::any(); kani::assume((rs0 as usize) < %(nsets)d);
         let done0: bool = kani::any();
-        let r = reference(&a, n, rs0, done0, &locs);
-        kani::assume(r.within);                       // at most %(m)d actions in this call (bound m)
-        let mut lx = L::new_from_iter_with_state(ArrIter { a, n, i: 0 }, Log::default());
-        lx.0.__verif_set_locs(base);
-        %(enter)s
-        lx.0.__done = done0;
-        let item = lx.next();
-        // ---- vacuity guards
-        kani::cover!(matches!(r.item, RefItem::Tok(..)), "cover: a token is produced");
-        kani::cover!(matches!(r.item, RefItem::Invalid(..)), "cover: InvalidToken is produced");
-        kani::cover!(matches!(r.item, RefItem::None), "cover: stream end is produced");
-        kani::cover!(r.rounds >= 2, "cover: two lexemes handled in one call");
-        // ---- the item
-        match (&item, r.item) {
-            (None, RefItem::None) => {}
-            (Some(Ok((s, t, e))), RefItem::Tok(rs_, rt, re_)) => {
-                assert!(*t == rt, "%(t_tok)s: token / selected rule differs from the reference (longest match, rule priority)");
-                assert!(*s == rs_ && *e == re_, "%(t_span)s: token span differs from the reference");
-            }
-            (Some(Err(er)), RefItem::Invalid(l)) => {
-                assert!(matches!(er.kind, LexerErrorKind::InvalidToken), "%(t_errkind)s: error kind");
-                assert!(er.location == l, "%(t_errloc)s: InvalidToken location is not the start of the lexeme");
-            }
-            (Some(Err(er)), RefItem::Custom(l, c)) => {
-                assert!(%(custom_check)s, "%(t_custom)s: custom error payload");
-                assert!(er.location == l, "%(t_customloc)s: custom error location is not the start of the lexeme");
-            }
-            (None, _) => { assert!(false, "%(t_none)s: stream ended although the reference yields an item"); }
-            (Some(Ok(_)), RefItem::None) => { assert!(false, "%(t_extra)s: token produced although the reference ends the stream"); }
-            (Some(Err(_)), RefItem::None) => { assert!(false, "%(t_extra)s: error produced although the reference ends the stream"); }
-            (Some(Ok(_)), _) => { assert!(false, "%(t_okerr)s: token produced where the reference reports an error"); }
-            (Some(Err(_)), _) => { assert!(false, "%(t_errok)s: error produced where the reference yields a token"); }
-        }
-        // ---- the state between two calls
-        assert!(lx.0.__state == entry(r.rs) && lx.0.__initial_state == entry(r.rs), "%(t_rs)s: active rule set after the call differs from the reference");
-        assert!(rest_eq(&lx.0.__iter, &a, n, r.pos), "%(t_pos)s: input position after the call differs from the reference");
-        assert!(lx.0.match_loc() == (locs[r.ms], locs[r.pos]), "%(t_match)s: current match after the call differs from the reference");
-        assert!(lx.0.__done == r.done, "%(t_done)s: end-of-input flag differs from the reference");
-        assert!(lx.0.__verif_last_match_is_none(), "%(t_lm)s: a saved accepting position survives the call");
-        // ---- the actions that ran
-        let lg = *lx.0.state();
-        assert!(lg.n == r.log.n, "%(t_logn)s: number of action invocations differs from the reference");
-        assert!(lg == r.log, "%(t_log)s: action log (rule, match_loc, peek) differs from the reference");
+        check(a, n, base, rs0, done0, false);
     }
 }
 """ % dict(name=name, prelude=PRELUDE, lexer=lexer_text(d), reference=reference_fn(d, N, m), entry_fn=entry_fn, unwind=unwind, stub=stub,
            nsets=len(set_names), m=m, enter=enter_code, custom_check=custom_check,
-           t_tok=tag("tok", "C01 C02"), t_span=tag("span", "C06"), t_errkind=tag("errkind", "C07"), t_errloc=tag("errloc", "C07"),
-           t_custom=tag("custom", "C07"), t_customloc=tag("customloc", "C07"), t_none=tag("none", "C05 C07"), t_extra=tag("extra", "C05"),
-           t_okerr=tag("okerr", "C07 C01"), t_errok=tag("errok", "C07 C01"), t_rs=tag("rs", "C03 C08"), t_pos=tag("pos", "C01 C04 C08"),
-           t_match=tag("match", "C06 C08 C10"), t_done=tag("done", "C05"), t_lm=tag("lm", "C01 C10"), t_logn=tag("logn", "C10"), t_log=tag("log", "C10 C06"))
+           t_tok=tag("tok", "C01 C02 C03 C04 C11"), t_span=tag("span", "C01 C02 C04 C06 C11"), t_errkind=tag("errkind", "C07"),
+           t_errloc=tag("errloc", "C07 C06"), t_custom=tag("custom", "C07 C10"), t_customloc=tag("customloc", "C07 C06"),
+           t_none=tag("none", "C05 C01 C02"), t_extra=tag("extra", "C05"),
+           t_okerr=tag("okerr", "C07 C01 C02 C04 C11"), t_errok=tag("errok", "C07 C01 C02 C04 C11"), t_rs=tag("rs", "C03 C08"),
+           t_pos=tag("pos", "C01 C02 C04 C05 C08 C11"), t_match=tag("match", "C06 C08 C10"), t_done=tag("done", "C05"),
+           t_lm=tag("lm", "C01 C10"), t_logn=tag("logn", "C10 C01"), t_log=tag("log", "C10 C06 C01"))
+
+
+def _enter_code(d):
+    set_names = [s for (s, _) in d["sets"]]
+    if d.get("flat"):
+        return "", len(set_names)
+    arms = " ".join("%d => { let _ = lx.switch::<()>(LRule::%s); }" % (i, s) for i, s in enumerate(set_names))
+    return "match rs0 { %s _ => {} }" % arms, len(set_names)
+
+
+def termination_mod(d, N, unwind):
+    """C09: no reference; one call from any call-start state returns within the unwinding bound and makes progress"""
+    enter, nsets = _enter_code(d)
+    return """
+pub mod %(name)s {
+    %(prelude)s
+    %(lexer)s
+
+    pub fn check(a: [char; N], n: usize, base: Loc, rs0: u8, done0: bool, verbose: bool) {
+        let mut lx = L::new_from_iter_with_state(ArrIter { a, n, i: 0 }, Log::default());
+        lx.0.__verif_set_locs(base);
+        %(enter)s
+        lx.0.__done = done0;
+        let item = lx.next();      // must return: unwinding assertions are on
+        #[cfg(not(kani))]
+        if verbose { println!("input {:?} (n={}), rule set {}, done {} -> returned; done flag now {}", &a[..n], n, rs0, done0, lx.0.__done); }
+        let mut consumed = 0usize;
+        let mut k = 0; while k <= N { if k <= n && rest_eq(&lx.0.__iter, &a, n, k) { consumed = k; } k += 1; }
+        if item.is_some() {
+            assert!(consumed >= 1 || (lx.0.__done && !done0), "[C09] an item was produced without consuming a character or the end-of-input event");
+        }
+        if done0 { assert!(item.is_none(), "[C09 C05] an item after the end-of-input event was handled"); }
+        let lg = *lx.0.state();
+        assert!(lg.n <= n + 1, "[C09] more actions ran than characters plus one");
+    }
+
+    #[cfg(kani)]
+    #[kani::proof]
+    #[kani::unwind(%(unwind)d)]
+    #[kani::stub(unicode_width::UnicodeWidthChar::width, crate::stub_width)]
+    pub fn step() {
+        let a: [char; N] = kani::any();
+        let n: usize = kani::any(); kani::assume(n <= N);
+        let base = any_base();
+        let rs0: u8 = kani::any(); kani::assume((rs0 as usize) < %(nsets)d);
+        let done0: bool = kani::any();
+        check(a, n, base, rs0, done0, false);
+    }
+}
+""" % dict(name=d["name"], prelude=PRELUDE.replace("RefItem, RefOut, ghost_locs, ", ""), lexer=lexer_text(d), enter=enter, nsets=nsets, unwind=unwind)
+
+
+def clone_mod(d, N, unwind):
+    """C15: clone at any call boundary; both continue identically and independently (one call each, symbolic call-start state)"""
+    enter, nsets = _enter_code(d)
+    return """
+pub mod %(name)s {
+    %(prelude)s
+    %(lexer)s
+
+    fn view(lx: &L<'static, ArrIter>, a: &[char; N], n: usize) -> (usize, usize, bool, (Loc, Loc), bool, usize) {
+        let mut pos = 0usize; let mut k = 0; while k <= N { if k <= n && rest_eq(&lx.0.__iter, a, n, k) { pos = k; } k += 1; }
+        (lx.0.__state, lx.0.__initial_state, lx.0.__done, lx.0.match_loc(), lx.0.__verif_last_match_is_none(), pos)
+    }
+    pub fn check(a: [char; N], n: usize, base: Loc, rs0: u8, done0: bool, verbose: bool) {
+        let mut lx = L::new_from_iter_with_state(ArrIter { a, n, i: 0 }, Log::default());
+        lx.0.__verif_set_locs(base);
+        %(enter)s
+        lx.0.__done = done0;
+        let mut cl = lx.clone();
+        let v0 = view(&cl, &a, n);
+        assert!(view(&lx, &a, n) == v0, "[C15] the clone differs from the original right after cloning");
+        let i1 = lx.next();
+        assert!(view(&cl, &a, n) == v0 && cl.0.state().n == 0, "[C15] a call on the original changed the clone");
+        let v1 = view(&lx, &a, n);
+        let l1 = *lx.0.state();
+        let i2 = cl.next();
+        #[cfg(not(kani))]
+        if verbose { println!("input {:?} (n={}), rule set {}, done {}: original -> {:?}, clone -> {:?}", &a[..n], n, rs0, done0, i1, i2); }
+        assert!(i1 == i2, "[C15] the clone yields a different item than the original");
+        assert!(view(&cl, &a, n) == v1 && *cl.0.state() == l1, "[C15] the clone is in a different state than the original after the same call");
+        assert!(view(&lx, &a, n) == v1 && *lx.0.state() == l1, "[C15] a call on the clone changed the original");
+    }
+
+    #[cfg(kani)]
+    #[kani::proof]
+    #[kani::unwind(%(unwind)d)]
+    #[kani::stub(unicode_width::UnicodeWidthChar::width, crate::stub_width)]
+    pub fn step() {
+        let a: [char; N] = kani::any();
+        let n: usize = kani::any(); kani::assume(n <= N);
+        let base = any_base();
+        let rs0: u8 = kani::any(); kani::assume((rs0 as usize) < %(nsets)d);
+        let done0: bool = kani::any();
+        kani::cover!(done0, "cover: clone after the end of input was handled");
+        check(a, n, base, rs0, done0, false);
+    }
+}
+""" % dict(name=d["name"], prelude=PRELUDE.replace("RefItem, RefOut, ghost_locs, ", ""), lexer=lexer_text(d), enter=enter, nsets=nsets, unwind=unwind)
+
+
+def ctor_mod(d, N, unwind):
+    """C14: the four constructors on the same characters (string of at most 2 symbolic scalar values): same items, same logs"""
+    return """
+pub mod %(name)s {
+    %(prelude)s
+    %(lexer)s
+
+    pub fn check(a: [char; N], n: usize, base: Loc, rs0: u8, done0: bool, verbose: bool) {
+        let mut s = String::with_capacity(8);
+        if n >= 1 { s.push(a[0]); }
+        if n >= 2 { s.push(a[1]); }
+        let n2 = if n > 2 { 2 } else { n };
+        let mut l1 = L::new(&s);
+        let mut l2 = L::new_with_state(&s, Log::default());
+        let mut l3 = L::new_from_iter(ArrIter { a, n: n2, i: 0 });
+        let mut l4 = L::new_from_iter_with_state(ArrIter { a, n: n2, i: 0 }, Log::default());
+        let mut k = 0;
+        while k < 3 {
+            let (i1, i2, i3, i4) = (l1.next(), l2.next(), l3.next(), l4.next());
+            #[cfg(not(kani))]
+            if verbose { println!("call {}: new {:?} | new_with_state {:?} | new_from_iter {:?} | new_from_iter_with_state {:?}", k, i1, i2, i3, i4); }
+            assert!(i1 == i2, "[C14] new and new_with_state disagree");
+            assert!(i1 == i3, "[C14] new and new_from_iter disagree");
+            assert!(i1 == i4, "[C14] new and new_from_iter_with_state disagree");
+            assert!(*l1.0.state() == *l3.0.state() && *l2.0.state() == *l4.0.state() && *l1.0.state() == *l2.0.state(), "[C14] action logs disagree between constructors");
+            k += 1;
+        }
+    }
+
+    #[cfg(kani)]
+    #[kani::proof]
+    #[kani::unwind(%(unwind)d)]
+    pub fn step() {
+        let a: [char; N] = kani::any();
+        let n: usize = kani::any(); kani::assume(n <= 2);
+        check(a, n, Loc { line: 0, col: 0, byte_idx: 0 }, 0, false, false);
+    }
+}
+""" % dict(name=d["name"], prelude=PRELUDE.replace("RefItem, RefOut, ghost_locs, rest_eq", "").replace("use super::{ArrIter, N, Log, };", "use super::{ArrIter, N, Log};"), lexer=lexer_text(d), unwind=unwind)
 
 
 def crate_main(defs, N, LOGM):
     """defs: list of (definition, m, unwind, stub_width)"""
     out = [COMMON.replace("@N@", str(N)).replace("@LOGM@", str(LOGM))]
     for (d, m, unwind, sw) in defs:
-        out.append(harness_mod(d, N, m, unwind, sw))
-    out.append("fn main() {}")
+        form = d.get("form", "step")
+        if form == "termination":
+            out.append(termination_mod(d, N, unwind))
+        elif form == "clone":
+            out.append(clone_mod(d, N, unwind))
+        elif form == "ctor":
+            out.append(ctor_mod(d, N, unwind))
+        else:
+            out.append(harness_mod(d, N, m, unwind, sw))
+    arms = "\n".join('        "%s" => %s::check(a, n, base, rs0, done0, true),' % (d["name"], d["name"]) for (d, _, _, _) in defs)
+    out.append("""
+/// native replay: <definition> <n> <rs0> <done0> <line> <col> <byte_idx> <c0 c1 ... as u32>
+fn main() {
+    let args: Vec<String> = std::env::args().collect();
+    if args.len() < 8 { return; }
+    let n: usize = args[2].parse().unwrap(); let rs0: u8 = args[3].parse().unwrap(); let done0: bool = args[4] != "0";
+    let base = Loc { line: args[5].parse().unwrap(), col: args[6].parse().unwrap(), byte_idx: args[7].parse().unwrap() };
+    let mut a = ['\\u{0}'; N];
+    for k in 0..N { if let Some(v) = args.get(8 + k) { a[k] = char::from_u32(v.parse().unwrap()).unwrap_or('?'); } }
+    match args[1].as_str() {
+%s
+        _ => println!("unknown definition"),
+    }
+    println!("REPLAY-PASSED (no assertion of the step contract fails natively on this input)");
+}
+""" % arms)
     return "\n".join(out)
